@@ -308,14 +308,59 @@ def check_position_stores(ctx):
     ctx.rule('R2.1', 'every store to a position attribute happens with the node\'s memo known empty, is followed by a covering flush on '
                      'every normal path, or writes a freshly constructed AST', 60)
     n_funcs = 0
+    # (1) the parser modules work on trees that have no FST yet; a helper that only they call is in the same position wherever it lives
+    calls_by_name = {}
+    for cfi in ctx.repo.all_funcs():
+        for c in ast.walk(cfi.node):
+            if isinstance(c, ast.Call) and call_name(c):
+                calls_by_name.setdefault(call_name(c), []).append((cfi, c))
+    skipped_helpers = set()
     for fi in ctx.repo.all_funcs():
-        if isinstance(fi.node, ast.Lambda) or fi.module in SKIP_MODULES:
+        if isinstance(fi.node, ast.Lambda) or fi.module in SKIP_MODULES or '.' in fi.qualname:
+            continue
+        sites = [cfi for cfi, c in calls_by_name.get(fi.name, []) if cfi.key != fi.key]
+        if sites and all(cfi.module in SKIP_MODULES for cfi in sites):
+            skipped_helpers.add(fi.key)
+    # (2) a plain helper (no node of its own) that stores positions on the nodes of a tree it is *handed* moves the obligation to its
+    # callers: there the call is a position store on the argument
+    def param_of(fn, etext):
+        ps = [a.arg for a in fn.args.posonlyargs + fn.args.args]
+        if etext in ps:
+            return etext
+        for c in containers_of(fn, etext):
+            root = c.split('.')[0].split('[')[0]
+            if root in ps:
+                return root
+        return None
+    param_stores = {}          # function name -> {param index: {attrs}}
+    for fi in ctx.repo.all_funcs():
+        if isinstance(fi.node, ast.Lambda) or fi.module in SKIP_MODULES or fi.key in skipped_helpers or '.' in fi.qualname:
+            continue
+        ps = [a.arg for a in fi.node.args.posonlyargs + fi.node.args.args]
+        if not ps or ps[0] == 'self' or not calls_by_name.get(fi.name):
+            continue
+        for n in walk_no_nested(fi.node):
+            for t in _targets(n):
+                if isinstance(t, ast.Attribute) and t.attr in POS:
+                    pn = param_of(fi.node, norm(t.value))
+                    if pn is not None:
+                        param_stores.setdefault(fi.name, {}).setdefault(ps.index(pn), set()).add(t.attr)
+    ctx.extra['position_store_helpers'] = {k: {str(i): sorted(v) for i, v in d.items()} for k, d in param_stores.items()}
+    for fi in ctx.repo.all_funcs():
+        if isinstance(fi.node, ast.Lambda) or fi.module in SKIP_MODULES or fi.key in skipped_helpers:
             continue
         stores = []
         for n in walk_no_nested(fi.node):
             for t in _targets(n):
                 if isinstance(t, ast.Attribute) and t.attr in POS:
+                    if fi.name in param_stores and '.' not in fi.qualname and param_of(fi.node, norm(t.value)) is not None:
+                        continue          # checked at the call sites
                     stores.append((n, t))
+            if isinstance(n, ast.Expr) and isinstance(n.value, ast.Call) and isinstance(n.value.func, ast.Name) and n.value.func.id in param_stores:
+                for i, attrs in param_stores[n.value.func.id].items():
+                    if i < len(n.value.args) and not any(isinstance(a, ast.Starred) for a in n.value.args[:i + 1]):
+                        for at in sorted(attrs):
+                            stores.append((n, ast.copy_location(ast.Attribute(value=n.value.args[i], attr=at, ctx=ast.Store()), n)))
         if not stores:
             continue
         if fi.module == 'match' and fi.cls and all(norm(t.value) == 'self' for _, t in stores):
